@@ -169,7 +169,15 @@ pub fn rand_val(rng: &mut Rng, ty: TagDataType, big: bool, noncanon: bool) -> (V
         TagDataType::UnsignedInt => { let v = lattice_u64(rng); (Val::U(v), if noncanon && rng.chance(1, 4) { if v == 0 && rng.chance(1, 2) { 255 } else { rng.range(1, 3) } } else { 0 }) }
         TagDataType::Integer => { let v = lattice_u64(rng) as i64; let v = if rng.chance(1, 2) { v.wrapping_neg() } else { v }; (Val::I(v), if noncanon && rng.chance(1, 4) { if v == 0 && rng.chance(1, 2) { 255 } else { rng.range(1, 3) } } else { 0 }) }
         TagDataType::Float => if noncanon && rng.chance(1, 3) { (Val::F4(f32::from_bits(match rng.below(6) { 0 => 0, 1 => 0x8000_0000, 2 => 1, 3 => 0x7f80_0000, 4 => 0x3f80_0000, _ => { let x = rng.next_u64() as u32; if (x >> 23) & 0xff == 0xff { x & 0xff80_0000 } else { x } } })), 0) } else { let f = lattice_f64(rng); (Val::F(if f.is_nan() { f64::NAN } else { f }), 0) },
-        TagDataType::Utf8 => { let n = payload_len(rng, false).min(40); (Val::S(rand_utf8(rng, n)), 0) }
+        TagDataType::Utf8 => {
+            if rng.chance(1, 3) {
+                // exact *byte* lengths from the boundary lattice (0, 126-128, 16382-16384, ...), ASCII with a few multi-byte characters
+                let n = payload_len(rng, big);
+                let mut st = String::with_capacity(n);
+                while st.len() < n { let left = n - st.len(); let c = match rng.below(8) { 0 if left >= 2 => 'é', 1 if left >= 3 => '€', 2 if left >= 4 => '😀', _ => (b'a' + rng.below(26) as u8) as char }; st.push(c); }
+                (Val::S(st), 0)
+            } else { let n = payload_len(rng, false).min(40); (Val::S(rand_utf8(rng, n)), 0) }
+        }
         TagDataType::Binary => { let n = payload_len(rng, big); (Val::B(rng.bytes(n)), 0) }
     }
 }
